@@ -265,6 +265,52 @@ def run_shard(spec):
                                 sh.violation("empty_selection", (tag, " ".join(opts), "traceback" if run.traceback() else "rc=%s" % run.rc),
                                              case, {"rc": run.rc, "stderr_tail": run.stderr[-300:], "stdout_tail": run.stdout[-200:]})
             shutil.rmtree(d, ignore_errors=True)
+        # same base name in two directories, different classes (a header with its guard / without the guard's
+        # #define, a clean / an erroneous .c): each keeps its own verdict whatever was analysed before it in the run
+        if spec["shard"] % 4 == 2 or spec["tier"] == "thorough":
+            hs = [x for x in reps["clean"] if x[0] == "h"]
+            pairs = []
+            if hs:
+                good = hs[0][1].replace("REP_H", "UTIL_H")
+                import re
+                bad = re.sub(r"^# define UTIL_H\n", "", good, count=1, flags=re.M)
+                if bad != good:
+                    pairs.append(("util.h", good, bad))
+            cc = [x for x in reps["clean"] if x[0] == "c"]
+            ce = [x for x in reps["error"] if x[0] == "c"]
+            if cc and ce:
+                pairs.append(("util.c", cc[0][1], ce[0][1]))
+            for name, good, bad in pairs:
+                d = os.path.join(tmp, "sib_" + name)
+                for sub, txt in (("one", good), ("two", bad), ("three", good)):
+                    os.makedirs(os.path.join(d, sub))
+                    with open(os.path.join(d, sub, name), "w") as f:
+                        f.write(txt)
+                alone = cliobs.run_cli(["--no-colors", os.path.join("two", name)], cwd=d)
+                for order in (["one", "two"], ["two", "one"], ["one", "two", "three"], ["one", "one", "two", "two"], ["."]):
+                    argv = ["--no-colors"] + [os.path.join(o, name) if o != "." else "." for o in order]
+                    run = cliobs.run_cli(argv, cwd=d)
+                    sh.case("sibling\0" + name + "\0" + " ".join(order))
+                    sh.tally("runs", "same_name_siblings")
+                    sh.count("c04.same_name_files_keep_their_own_verdict")
+                    case = {"mode": "siblings", "name": name, "good": good, "bad": bad, "order": order}
+                    if run.timeout:
+                        sh.inconclusive.append("CLI run exceeded the wall-clock watchdog")
+                        continue
+                    try:
+                        files = oracle.parse_humanized(run.stdout)
+                    except (oracle.ReportParseError, ValueError, KeyError) as e:
+                        sh.violation("unparsable_output", (type(e).__name__,), case, {"stdout_tail": run.stdout[-300:]})
+                        continue
+                    want = ["Error" if o == "two" else "OK" for o in order] if order != ["."] else None
+                    got = [f["status"] for f in files]
+                    if want is None:
+                        ok = sorted(got) == ["Error", "OK", "OK"]
+                    else:
+                        ok = got == want
+                    if not ok or run.rc in (0, None) or run.traceback():
+                        sh.violation("sibling_verdicts", (name[-2:], " ".join(order)), case,
+                                     {"expected": want or "one Error, two OK", "got": got, "rc": run.rc, "alone_rc": alone.rc})
         # independence from the number of files: large runs around the 8-bit width of an exit status
         counts = [c for i, c in enumerate([255, 256, 257, 512, 128, 300]) if i % spec["nshards"] == spec["shard"]]
         if spec["tier"] == "quick":
@@ -306,6 +352,21 @@ def replay(case, sh):
             sh.evaluations += 1
             if (run.rc == 0) != (case["cls"] == "clean"):
                 sh.violation("exit_status_many_files", ("replay",), case, {"rc": run.rc})
+            return
+        if case.get("mode") == "siblings":
+            name = case["name"]
+            for sub, txt in (("one", case["good"]), ("two", case["bad"]), ("three", case["good"])):
+                os.makedirs(os.path.join(tmp, sub))
+                with open(os.path.join(tmp, sub, name), "w") as f:
+                    f.write(txt)
+            order = case["order"]
+            run = cliobs.run_cli(["--no-colors"] + [os.path.join(o, name) if o != "." else "." for o in order], cwd=tmp)
+            sh.evaluations += 1
+            files = oracle.parse_humanized(run.stdout)
+            got = [f["status"] for f in files]
+            want = ["Error" if o == "two" else "OK" for o in order] if order != ["."] else None
+            if (sorted(got) != ["Error", "OK", "OK"] if want is None else got != want) or run.rc in (0, None):
+                sh.violation("sibling_verdicts", ("replay",), case, {"got": got, "rc": run.rc})
             return
         if case.get("mode") == "empty":
             import subprocess
